@@ -63,3 +63,42 @@ SEARCH = {'c15_write_quoted': ['c15_quoted']}
 BOUNDED = {'C15': [dict(case='c15_values', function='value/src/lib.rs Display for ConstValue (write_list, write_object, numbers, enums), value/src/value_serde.rs + serializer.rs + deserializer.rs, read back by the real parser / serde_json',
                         bound='20 leaf values (integer boundaries incl. > i64::MAX, floats, control and non-BMP characters, enums) + 60 seeded composite values (lists / objects nested up to 3 levels): print->parse and two JSON round trips',
                         why='Display of numbers defers to serde_json; serde visitor impls are trait plumbing over third-party traits; the re-parse half is the pest parser. Only write_quoted is under contract')]}
+
+
+# ----------------------------------------------------------------------------------------------------------------------
+# JSON -> value: the leaf callbacks of the serde Visitor (value_serde.rs) keep the scalar they are given
+from specs.common import value_types  # noqa: E402
+
+VS = 'value/src/value_serde.rs'
+
+
+def serde_leaves_unit(kf):
+    u = Unit('c15_serde_leaves', ['C15'], 'the serde visitor turns every JSON scalar into the GraphQL value that denotes it (integers exactly, u64 not through i64)')
+    u.kf = kf
+    value_types(u)
+    for ty, impl in [('ConstValue', "impl<'de> Deserialize<'de> for ConstValue"), ('Value', "impl<'de> Deserialize<'de> for Value")]:
+        path = [impl, 'fn deserialize', "impl<'de> Visitor<'de> for ValueVisitor"]
+        sig = lambda argty: [ReSub(r'<E>\(self, ', '('), ReSub(r'Result<Self::Value, E>', f'Result<{ty}, ()>'), ReSub(r'where\s+E: DeError,?', '')]
+        lab = lambda m: f'{VS}::{impl}::ValueVisitor::{m}'
+        u.extract_fn(VS, path + ['fn visit_bool'], name=f'{ty}_visit_bool', label=lab('visit_bool'), sig_rewrites=sig('bool'),
+                     ensures=[f'r == Ok::<{ty}, ()>({ty}::Boolean(v))'])
+        u.extract_fn(VS, path + ['fn visit_i64'], name=f'{ty}_visit_i64', label=lab('visit_i64'), sig_rewrites=sig('i64'),
+                     rewrites=[Sub('v.into()', 'Number::from_i64(v)', rule='R-from')],
+                     ensures=['r is Ok && r->Ok_0 is Number && r->Ok_0->Number_0.is_int() && r->Ok_0->Number_0.int_val() == v'])
+        u.extract_fn(VS, path + ['fn visit_u64'], name=f'{ty}_visit_u64', label=lab('visit_u64'), sig_rewrites=sig('u64'),
+                     rewrites=[Sub('v.into()', 'Number::from_u64(v)', rule='R-from')],
+                     ensures=['r is Ok && r->Ok_0 is Number && r->Ok_0->Number_0.is_int() && r->Ok_0->Number_0.int_val() == v   // the full u64 range, not wrapped through i64'])
+        u.extract_fn(VS, path + ['fn visit_string'], name=f'{ty}_visit_string', label=lab('visit_string'), sig_rewrites=sig('String'),
+                     ensures=[f'r is Ok && r->Ok_0 is String && r->Ok_0->String_0@ == v@'])
+        u.extract_fn(VS, path + ['fn visit_none'], name=f'{ty}_visit_none', label=lab('visit_none'), sig_rewrites=[ReSub(r'<E>\(self\)', '()'), ReSub(r'Result<Self::Value, E>', f'Result<{ty}, ()>'), ReSub(r'where\s+E: DeError,?', '')],
+                     ensures=[f'r == Ok::<{ty}, ()>({ty}::Null)'])
+        u.extract_fn(VS, path + ['fn visit_unit'], name=f'{ty}_visit_unit', label=lab('visit_unit'), sig_rewrites=[ReSub(r'<E>\(self\)', '()'), ReSub(r'Result<Self::Value, E>', f'Result<{ty}, ()>'), ReSub(r'where\s+E: DeError,?', '')],
+                     ensures=[f'r == Ok::<{ty}, ()>({ty}::Null)'])
+    u.assume('R-from: `v.into()` for i64 / u64 is serde_json Number::from (integer preserving, assumed); the error type parameter E is instantiated with ()')
+    u.assume('visit_f64 / visit_seq / visit_map / visit_bytes and the Serialize impls are serde trait plumbing (not under contract): bounded c15_values')
+    u.search_case('value_serde.rs', 'c15_values')
+    return u
+
+
+UNITS['c15_serde_leaves'] = (['C15'], serde_leaves_unit)
+SEARCH['c15_serde_leaves'] = ['c15_values']
